@@ -94,6 +94,33 @@ theorem C04_lazy_duplicate_is_error (cfg : Cfg) (ef : Nat) (name : String) (node
   simp [Prog.run_bind, Prog.withContext, Prog.run, Lazy.evalL, Prog.pollP, Bind.bind, Prog.bind, hc, Lazy.asSyntaxNodeL, pure,
     hprev, Prog.throwK, Fail.withContext, XErr.withContext]
 
+/-- **lazy inheritance: the nearest definition wins.** Once the definitions of `name` are forced into the map `map`, a
+read from `node` returns the node's own value if it has one; otherwise — only for a name declared `inherit` — the value of
+the nearest ancestor that has one (ancestors nearest first), whatever order the definitions were collected in; otherwise
+the read fails with `UndefinedScopedVariable`. The graph is not touched. -/
+theorem C04_lazy_inherit_nearest (cfg : Cfg) (ef node : Nat) (name : String) (map : List (Nat × LVal))
+    (s : Prog.MSt LSt) (hcell : s.rest.cells.lookup name = some (.forced map)) :
+    ∃ s', s'.graph = s.graph ∧ Prog.run (Lazy.resolveScoped cfg ef node name) s =
+      (match (if cfg.inherited.contains name then (node :: cfg.tree.ancestors node).findSome? (fun a => map.lookup a)
+              else map.lookup node) with
+       | some v => .ok v s'
+       | none => .fail (.err (.base .undefinedScopedVariable "")) s') := by
+  refine ⟨{ s with rest := Lazy.setCell (Lazy.setCell s.rest name .forcing) name (.forced map) }, rfl, ?_⟩
+  rw [Lazy.resolveScoped.eq_def]
+  simp only [Prog.getR, Prog.primP, Bind.bind, Prog.bind, Prog.run, hcell]
+  rw [Lazy.forceCell.eq_def]
+  simp only [Prog.modifyR, Prog.primP, Bind.bind, Prog.bind, Prog.run, Pure.pure]
+  cases hown : map.lookup node with
+  | some v =>
+    simp only [List.findSome?_cons, hown, ite_self]
+    rfl
+  | none =>
+    simp only [List.findSome?_cons, hown]
+    by_cases hinh : cfg.inherited.contains name = true
+    · simp only [hinh, if_true]
+      cases (cfg.tree.ancestors node).findSome? fun a => map.lookup a <;> rfl
+    · simp only [hinh]
+      rfl
 /-- non-vacuity: a definition on a fresh store succeeds (so the hypotheses above are satisfiable) -/
 example : ∃ s', Prog.run (scopedAdd 3 "x" (.int 1) false)
       { graph := {}, rest := { locals := [[]], scopedVars := [] }, ps := ⟨0, none⟩ } = .ok () s' := by
